@@ -76,7 +76,9 @@ def drifted_instance(inst, drifted=None):
     if any(f in drifted for f in COMMON):
         return True
     names = []
-    if inst.startswith("chain:"):
+    if inst.startswith("at:"):
+        names = [st.split(",")[0] for st in inst[3:].split("/")[1:]]
+    elif inst.startswith("chain:"):
         names = [st.split(",")[0] for st in inst[6:].split("/")]
     else:
         names = [inst.split(":")[0]]
